@@ -37,8 +37,17 @@ pub fn run(cfg: &Cfg) -> Outcome {
                 // UL elements too (e.g. a stale group length supplied by the caller is replaced)
                 let vr = if rng.chance(1, 12) { VR::UL } else { vr };
                 let g = gen_value(rng, vr, &o);
-                let Some(p) = g.to_primitive() else { continue };
-                l.class(format!("{}|m{}|odd{}", vr, g.multiplicity().min(3), crate::refenc::value_bytes(&g, false).len() % 2));
+                let Some(mut p) = g.to_primitive() else { continue };
+                // single text values also in the `Str` representation (what `PrimitiveValue::from(&str)`
+                // builds), whose reported length is not padded to even
+                let mut repr = "list";
+                if let dicom_core::PrimitiveValue::Strs(v) = &p {
+                    if v.len() == 1 && rng.bool() {
+                        p = dicom_core::PrimitiveValue::Str(v[0].clone());
+                        repr = "single";
+                    }
+                }
+                l.class(format!("{}|m{}|odd{}|{}", vr, g.multiplicity().min(3), crate::refenc::value_bytes(&g, false).len() % 2, repr));
                 desc.push(json!({"tag": format!("0000{:04X}", el), "vr": vr.to_string(), "value": format!("{:?}", p).chars().take(80).collect::<String>()}));
                 map.insert(el, DataElement::new(Tag(0, el), vr, p));
             }
@@ -95,7 +104,7 @@ pub fn run(cfg: &Cfg) -> Outcome {
             }
         },
     );
-    let mut o = Outcome::new(local, "random command sets (0-12 elements of group 0000 with UI/US/UL/AE/LO/AT values of random length and multiplicity, occasionally a stale caller-supplied (0000,0000) and elements of other groups mixed in, shuffled) built with command_from_element_iter and written in Implicit VR LE; the value of (0000,0000) must equal the bytes occupied by the other group-0000 elements, measured by the harness' own walk of the stream; class = (VR, multiplicity, parity)");
+    let mut o = Outcome::new(local, "random command sets (0-12 elements of group 0000 with UI/US/UL/AE/LO/AT values of random length and multiplicity, text both as single `Str` and as `Strs` lists, occasionally a stale caller-supplied (0000,0000) and elements of other groups mixed in, shuffled) built with command_from_element_iter and written in Implicit VR LE; the value of (0000,0000) must equal the bytes occupied by the other group-0000 elements, measured by the harness' own walk of the stream; class = (VR, multiplicity, parity)");
     o.min_evaluations = 10_000;
     o.min_classes = 20;
     o
